@@ -107,6 +107,8 @@ type Gen struct {
 	sumlenWanted map[string]bool
 	// at_call(sel, expr) snapshots: ghost name -> (selector, expression)
 	snaps map[string]snapSpec
+	localsNamed map[string]bool // source locals the contract refers to by name (a rename breaks the contract)
+	aliasEnv map[string]bool // env names introduced as niter-1 aliases (may be rebound by a later loop)
 	// inferred loop facts (reported in the evidence)
 	inferred []string
 	exportWanted map[string]bool
@@ -134,6 +136,7 @@ type loopInfo struct {
 	spec    *LoopSpec
 	phis    []*ssa.Phi
 	bindErr string
+	iterAlias []string // names bound with name=rangeindex on a loop that has no range index: niter - 1
 	headerState *State
 	headerEnv map[string]*Val
 	variantAtHeader string
@@ -725,4 +728,11 @@ func (g *Gen) takeSnapshots(c *ssa.CallCommon, prefix string) {
 			g.cur.ghost[gn] = v.T
 		}
 	}
+}
+
+func (g *Gen) noteLocalNamed(name string) {
+	if g.localsNamed == nil {
+		g.localsNamed = map[string]bool{}
+	}
+	g.localsNamed[name] = true
 }
